@@ -306,14 +306,16 @@ def pilot(elfi, spec, n=80, seed=12345):
     return np.sort(d[np.isfinite(d)])
 
 
-def gen_rejection_workload(tape, spec, pil, extra_outputs=True, allow_threshold=True):
+def gen_rejection_workload(tape, spec, pil, extra_outputs=True, allow_threshold=True,
+                           extras_optional=False):
     bs = tape.int('batch_size', 1, 12)
     n = tape.int('n_samples', 1, 20)
     wl = {'method': 'rejection', 'batch_size': bs, 'seed': tape.int('seed', 0, 2 ** 20),
           'n_samples': n}
     outs = list(spec['sums']) if tape.chance('out_sums', 1, 2) else []
     if extra_outputs:
-        outs += spec.get('extras', [])
+        outs += [x for x in spec.get('extras', [])
+                 if not extras_optional or tape.chance('want_extra', 1, 2)]
         if tape.chance('out_sim', 1, 4):
             outs.append('sim')
     wl['output_names'] = outs
